@@ -229,7 +229,9 @@ impl Family for C09 {
                 )),
             }
         }
+        let mut op_starts: Vec<usize> = Vec::with_capacity(ops.len());
         for (i, (op, codeinfo, len)) in ops.iter().enumerate() {
+            op_starts.push(sim.pos);
             let mut t = sim.tags(&op.name());
             t.push(format!("backend={}", s.rbackend.name()));
             if let Some((code, rtab)) = codeinfo {
@@ -341,6 +343,49 @@ impl Family for C09 {
                         }
                         _ => ctx.probe("c09.err_in_read_bits"),
                     }
+                    // ... and the tail is not lost for good: a seek back to the start of an
+                    // earlier item re-establishes the state of a fresh reader whatever happened
+                    // before (C07), so the items inside the data decode again
+                    if i > 0 {
+                        let k = (s.keep_words + s.elems.len()) % i;
+                        let target = op_starts[k];
+                        let mut t = sim.tags("set_bit_pos");
+                        t.push(format!("backend={}", s.rbackend.name()));
+                        t.push("phase=after_error".into());
+                        t.push(format!("table_read_seen={}", if table_seen { "yes" } else { "no" }));
+                        ctx.step(t.clone());
+                        match guard(|| sim.r.set_bit_pos(target as u64)) {
+                            Ok(Ok(())) => {
+                                sim.pos = target;
+                                sim.dead = false;
+                                sim.words_base = None;
+                                ctx.probe("c09.reread_after_error_and_seek");
+                                for (j, (op2, _, _)) in ops.iter().enumerate().take(i).skip(k) {
+                                    let mut t2 = sim.tags(&op2.name());
+                                    t2.push(format!("backend={}", s.rbackend.name()));
+                                    t2.push("phase=after_error".into());
+                                    t2.push(format!("table_read_seen={}", if table_seen { "yes" } else { "no" }));
+                                    ctx.step(t2);
+                                    match sim.step(ctx, 2000 + j, op2) {
+                                        StepOut::Ok => {}
+                                        StepOut::Failed => break,
+                                        StepOut::Err(m) => {
+                                            ctx.fail(
+                                                "C09.tail_lost",
+                                                format!(
+                                                    "after op #{} failed at the end of the data and a seek back to bit {} (start of op #{}), op #{} {:?}, which lies inside the data, failed: {}",
+                                                    i, target, k, j, op2, m
+                                                ),
+                                            );
+                                            break;
+                                        }
+                                    }
+                                }
+                            }
+                            Ok(Err(_)) => {}
+                            Err(pm) => ctx.fail("C09.panic", format!("set_bit_pos({}) after an end-of-data error panicked: {}", target, pm)),
+                        }
+                    }
                 }
             }
             sim.harvest_faults(ctx);
@@ -441,6 +486,7 @@ impl Family for C09 {
 
     fn required_probes(_t: Tier) -> Vec<&'static str> {
         vec![
+            "c09.reread_after_error_and_seek",
             "c09.truncated",
             "c09.item_ends_exactly_at_cut",
             "c09.table_peek_past_end_fallback",
